@@ -470,6 +470,61 @@ Qed.
 Lemma is_builtin_not_w3 n u : starts_with w3_prefix u = false -> is_builtin_ref n u = false.
 Proof. unfold is_builtin_ref. intros ->. apply andb_false_r. Qed.
 
+(* the deep search only ever finds a local element of that name and namespace *)
+Lemma sentry_named_mark nm k o e : sentry_named nm (mark k o e) = sentry_named nm e.
+Proof. destruct e; reflexivity. Qed.
+
+Lemma s_particle_pc_cons k o q l :
+  s_particle (PC k o (q :: l)) = map (mark k o) (s_particle q) ++ s_particle (PC k o l).
+Proof. cbn [s_particle]. rewrite map_app. reflexivity. Qed.
+
+Lemma existsb_map_mark nm k o l :
+  existsb (sentry_named nm) (map (mark k o) l) = existsb (sentry_named nm) l.
+Proof. induction l as [|e l IH]; cbn; auto. rewrite sentry_named_mark, IH. reflexivity. Qed.
+
+Lemma local_match_named ns nm d : local_match ns nm d = true -> N.eqb (e_name d) nm = true.
+Proof. unfold local_match. intro H. apply andb_true_iff in H. tauto. Qed.
+
+Lemma direct_named_in ns nm k o kids d :
+  direct_named ns nm kids = Some d -> existsb (sentry_named nm) (s_particle (PC k o kids)) = true.
+Proof.
+  induction kids as [|q r IH]; cbn [direct_named]; [discriminate|].
+  intro H. rewrite s_particle_pc_cons, existsb_app. destruct q as [d0| |k' o' kids'].
+  - destruct (local_match ns nm d0) eqn:E.
+    + cbn. rewrite (local_match_named _ _ _ E). reflexivity.
+    + rewrite (IH H). apply orb_true_r.
+  - rewrite (IH H). apply orb_true_r.
+  - rewrite (IH H). apply orb_true_r.
+Qed.
+
+Lemma top_find_in ns nm ps : forall seen d,
+  top_find ns nm seen ps = Some d -> existsb (sentry_named nm) (flat_map s_particle ps) = true.
+Proof.
+  induction ps as [|p r IH]; intros seen d H; [discriminate|].
+  cbn [flat_map]. rewrite existsb_app. destruct p as [d0| |k o kids]; cbn [top_find] in H.
+  - destruct (local_match ns nm d0) eqn:E.
+    + cbn. rewrite (local_match_named _ _ _ E). reflexivity.
+    + rewrite (IH _ _ H). apply orb_true_r.
+  - rewrite (IH _ _ H). apply orb_true_r.
+  - destruct seen.
+    + rewrite (IH _ _ H). apply orb_true_r.
+    + destruct (direct_named ns nm kids) as [d1|] eqn:E.
+      * rewrite (direct_named_in ns nm k o kids d1 E). reflexivity.
+      * rewrite (IH _ _ H). apply orb_true_r.
+Qed.
+
+Lemma deep_find_local W ns nm d : deep_find W ns nm = Some d -> local_named W (ns, nm) = true.
+Proof.
+  unfold deep_find. intro H. apply first_some_in in H as [q [Hq H]].
+  destruct (find_type (w_types W) q) as [t|] eqn:Et; [|discriminate].
+  unfold deep_in_type in H.
+  destruct (N.eqb (c_ns t) ns && negb (N.eqb (c_name t) nm) &&
+            match c_base t with None => true | Some _ => false end) eqn:Ec; [|discriminate].
+  apply andb_true_iff in Ec as [Ec _]. apply andb_true_iff in Ec as [Ec _].
+  unfold local_named. apply existsb_exists. exists t. split; [eapply find_type_in; eauto|].
+  cbn [fst snd]. rewrite Ec. cbn [andb]. eapply top_find_in; eauto.
+Qed.
+
 Theorem create_meets_spec_gen W strict sp :
   wf_names W = true -> (strict = false \/ no_enum_members W = true) ->
   wf_refs W = true -> wf_spelling sp = true ->
@@ -495,7 +550,10 @@ Proof.
       pose proof (from_root_ok W strict sp s0 (TgType (ns, nm)) Hn Hst Hr Hsp (repr_named W _ _ Efn)) as H.
       unfold des in H. destruct (steps W (sp_members sp) [TgType (ns, nm)]); auto.
       destruct (walk_sp W s0 (sp_members sp)); exact H.
-    + cbn. rewrite steps_nil; auto.
+    + destruct (local_named W (ns, nm)) eqn:El; [reflexivity|].
+      destruct (deep_find W ns nm) as [d0|] eqn:Ed.
+      { apply deep_find_local in Ed. rewrite Ed in El. discriminate. }
+      cbn. rewrite steps_nil; auto.
   - (* a global element: BlindQuery takes it first *)
     assert (Hin : In (ens, en, ty) (w_elems W)).
     { assert (In (ens, en, ty) (filter (fun e => qn_eqb (fst (fst e), snd (fst e)) (ns, nm)) (w_elems W)))
